@@ -1189,11 +1189,13 @@ def c19_k(ctx):
             ctx.check(okk, er, key + ' defaults to the filtering threshold only when missing',
                       'if {0} is None: {0} = eps_filter'.format(key),
                       '`{}` replaces a threshold the user gave'.format(src(s)[:50]), fn=er, node=s)
-    bc = ctx.calls(er, name='_build_boxes')
-    okk = bool(bc) and all(
-        any(k.arg is None and (('param', 'region_args') in (
-            exe.term(k.value)[1] if exe.term(k.value)[0] == 'phi' else (exe.term(k.value),)))
-            for k in c.keywords) for c in bc)
+    def _is_region_args(e):
+        t = exe.term(e)
+        return ('param', 'region_args') in (t[1] if t[0] == 'phi' else (t,))
+    bc = [c for c in ctx.calls(er) if isinstance(c.func, ast.Attribute) and
+          isinstance(c.func.value, ast.Name) and c.func.value.id == 'self' and
+          any(k.arg is None and _is_region_args(k.value) for k in c.keywords)]
+    okk = bool(bc)
     ctx.check(okk, er, 'region arguments reach the box builder', '_build_boxes(**region_args)',
               'the box builder is not called with the region arguments', fn=er,
               node=bc[0] if bc else er.node)
